@@ -70,10 +70,13 @@ pub struct Options {
     /// keep the full event list (replay / samples); otherwise only its hash
     pub keep_events: bool,
     pub hashsigs: bool,
+    /// purity profiles: a call on a valid key that fails here is repeated in a fresh child process; if it
+    /// succeeds there, the failure was caused by what this process did before (C09)
+    pub purity: bool,
 }
 impl Default for Options {
     fn default() -> Self {
-        Options { transparency: false, model_oracles: true, keep_events: false, hashsigs: true }
+        Options { transparency: false, model_oracles: true, keep_events: false, hashsigs: true, purity: false }
     }
 }
 
@@ -763,6 +766,18 @@ impl World {
                 }
                 if hash.metered() && outcome.is_ok() {
                     self.meter_oracle("sign", ki, before, meter_with, meter_plain, false);
+                }
+                self.oracle_evaluated();
+            }
+        }
+
+        // C09: a valid key and an accepting callback, yet the call failed: does the very same call succeed in
+        // a process that has no history?
+        if self.opt.purity && matches!(outcome, Outcome::Err) && matches!(cb, Cb::Accept) && !self.keys[ki].prv_corrupted {
+            if let Decoded::Valid { .. } = &decoded {
+                let cfg = self.keys[ki].cfg.clone();
+                if let Some(Some(_)) = crate::purity::sign_in_fresh_process(cfg.hash, &cfg.params, &cfg.seed, &kb, &message) {
+                    self.violate("C09", "impure:Sign:fails-after-history", "purity", format!("sign ({}) returned an error in this process but succeeds with the same key bytes and message in a fresh process", counter_s));
                 }
                 self.oracle_evaluated();
             }
@@ -1470,7 +1485,11 @@ pub fn options_for(profile: &str) -> Options {
     let mut o = Options::default();
     match profile {
         "aux" | "tall" => o.transparency = true,
-        "purity" => o.model_oracles = false,
+        "purity" => {
+            o.model_oracles = false;
+            o.purity = true;
+        }
+        "purity-proc" => o.purity = true,
         _ => {}
     }
     o
